@@ -252,17 +252,29 @@ func (a RuneSet) includes(b RuneSet) bool {
 			bi++
 			ai++
 		} else if bEntry.ref < aEntry.ref { // Does b have any pages not in a?
-			return false
+			if bEntry.set != (pageSet{}) {
+				return false
+			}
+			bi++ // an empty page (left by Delete) contains no rune
 		} else {
 			// increment ai to match the page of b
 			ai = a.findPageFrom(ai+1, bEntry.ref)
 			if ai < 0 { // the page is not even in a
-				return false
+				if bEntry.set != (pageSet{}) {
+					return false
+				}
+				bi++
+				ai = -ai - 1 // where the page would be
 			}
 		}
 	}
-	//  did we look at every page?
-	return bi >= len(b)
+	//  did we look at every page? the remaining ones must be empty
+	for ; bi < len(b); bi++ {
+		if b[bi].set != (pageSet{}) {
+			return false
+		}
+	}
+	return true
 }
 
 // Len returns the number of runes in the set.
